@@ -187,18 +187,28 @@ def script_table(repo: Repo, rep):
         bad = True
     # matrix border: first row letter moves along b, first column letter along a
     border_ok = True
+    borders_seen = set()
     for x in body_nodes(nw.node):
         if isinstance(x, ast.AnnAssign) and isinstance(x.target, ast.Name) and x.value is not None:
             x = ast.Assign(targets=[x.target], value=x.value)
-        if isinstance(x, ast.Assign) and isinstance(x.targets[0], ast.Name) and x.targets[0].id == "matrix":
-            consts = [c.value for c in ast.walk(x.value) if isinstance(c, ast.Constant) and isinstance(c.value, str)]
-            row = [c for c in consts if c != "e"]
-            if not row or any(prod.get(c) != {"b"} for c in row):
-                border_ok = False
-        if isinstance(x, ast.Assign) and isinstance(x.targets[0], ast.Name) and x.targets[0].id == "new_line":
-            consts = [c.value for c in ast.walk(x.value) if isinstance(c, ast.Constant) and isinstance(c.value, str)]
-            if not consts or any(prod.get(c) != {"a"} for c in consts):
-                border_ok = False
+        # the two border definitions are found by where they stand, not by their names: a list display with script letters
+        # in front of the loops is the first row (moves along b), one directly inside the outer loop starts a row (moves along a)
+        if isinstance(x, ast.Assign) and isinstance(x.targets[0], ast.Name) and isinstance(x.value, (ast.List, ast.BinOp)):
+            consts = [c.value for c in ast.walk(x.value) if isinstance(c, ast.Constant) and isinstance(c.value, str) and len(c.value) == 1]
+            if not consts:
+                continue
+            depth = len([a_ for a_ in ancestors(x) if isinstance(a_, (ast.For, ast.While))])
+            if depth == 0:
+                borders_seen.add("row")
+                row = [c for c in consts if c != "e"]
+                if not row or any(prod.get(c) != {"b"} for c in row):
+                    border_ok = False
+            elif depth == 1:
+                borders_seen.add("col")
+                if any(prod.get(c) != {"a"} for c in consts):
+                    border_ok = False
+    if borders_seen != {"row", "col"}:
+        rep.undecided("R-SCRIPT-TABLE", f"border of the alignment matrix not recognised in nw_align (found {sorted(borders_seen)})")
     if not border_ok:
         rep.violation("R-SCRIPT-TABLE", nw, nw.node, "the border of the alignment matrix uses a letter that does not move along its own axis (first row must consume the second sequence, first column the first)", construct="border")
         bad = True
@@ -734,10 +744,22 @@ def key_routing(repo: Repo, rep):
                 rep.violation("R-KEY-ROUTING", f, s.call, f"{f.qualname}: no condition that reads the new value decides whether this Delete is reached - every key of the old value is deleted (or none)", construct=f"{f.qualname}:delete-unguarded")
             else:
                 rep.ok("R-KEY-ROUTING", f, s.call, f"Delete decided by `{short(reads_new[0].ast, 50) if reads_new else 'the argument counts'}`")
-        # queue for insertion: appends to a local list inside a loop over the new items
+        # queue for insertion: appends to a local list inside a loop over the new items; the queue is the local that an insert
+        # change (DictInsert / ListInsert / CallArg) is later built from
+        insert_queues = set()
+        for x in body_nodes(f.node):
+            if isinstance(x, ast.Call) and norm(x.func).split(".")[-1] in ("DictInsert", "ListInsert", "CallArg"):
+                for y in ast.walk(x):
+                    if isinstance(y, ast.Name):
+                        insert_queues.add(y.id)
+            if isinstance(x, (ast.For, ast.comprehension)) and isinstance(x.iter, ast.Name):
+                # `for key, value in queue: yield CallArg(...)`
+                if any(isinstance(z, ast.Call) and norm(z.func).split(".")[-1] in ("DictInsert", "ListInsert", "CallArg") for z in (ast.walk(x) if isinstance(x, ast.For) else [])):
+                    insert_queues.add(x.iter.id)
+        insert_queues = {q for q in insert_queues if any(isinstance(a_, ast.Assign) and any(isinstance(t, ast.Name) and t.id == q for t in a_.targets) and isinstance(a_.value, ast.List) and not a_.value.elts for a_ in body_nodes(f.node))}
         for n in cfg.live:
             for c in node_calls(n):
-                if isinstance(c.func, ast.Attribute) and c.func.attr == "append" and isinstance(c.func.value, ast.Name) and "insert" in c.func.value.id:
+                if isinstance(c.func, ast.Attribute) and c.func.attr == "append" and isinstance(c.func.value, ast.Name) and c.func.value.id in insert_queues:
                     facts = facts_at(cfg, n)
                     if "IN_OLD" in facts and "NOT_IN_OLD" not in facts:
                         rep.violation("R-KEY-ROUTING", f, c, f"{f.qualname} queues a key for insertion on the path where it IS already present in the old value: the key is written twice", construct=f"{f.qualname}:insert-in-old")
